@@ -118,8 +118,8 @@ Definition ex_U (g : N) : gkey :=
 Definition ex_man := mkDesc 1 1 10 0.
 Definition ex_layer := mkDesc 6 2 5 0.
 Definition ex_hist : list op :=
-  [ Push ex_man (mkBlob 1 10 [(6, 2, 5)]); Push ex_layer (mkBlob 2 5 []);
-    Push ex_layer (mkBlob 2 5 []); Tag ex_man (RName 1); Resolve (RName 1); Resolve (RDig 2);
+  [ Push ex_man (mkBlob 1 10 [(6, 2, 5)] 1 [(6, 2, 5)]); Push ex_layer (mkBlob 2 5 [] 2 []);
+    Push ex_layer (mkBlob 2 5 [] 2 []); Tag ex_man (RName 1); Resolve (RName 1); Resolve (RDig 2);
     Preds ex_layer; Delete ex_man; Resolve (RName 1); Preds ex_layer; Delete ex_man ].
 
 Example C06_ex_U_dig : forall g, k_dig (ex_U g) = g.
